@@ -2,6 +2,11 @@ import IweModel.Props.C05
 #print axioms Iwe.C05.block_backlinks_exact
 #print axioms Iwe.C05.inline_backlinks_exact
 #print axioms Iwe.C05.backlink_counts
+#print axioms Iwe.C05.number_substr_shape
+#print axioms Iwe.C05.inline_counter_hint
+#print axioms Iwe.C05.block_reference_hints_spec
+#print axioms Iwe.C05.inlay_hints_order
+#print axioms Iwe.C05.inlay_hints_unknown_note
 #print axioms Iwe.C05.block_target_resolved_from_directory
 #print axioms Iwe.C05.external_link_is_not_a_reference
 #print axioms Iwe.C05.isRefUrl_iff
